@@ -140,6 +140,7 @@ type Write struct {
 type Knobs struct {
 	Mount                 int    // 0 granted when source has the blob, 1 declined with 202+Location, 2 unsupported (202 upload as if no mount)
 	AnonymousMount        bool   // grant a mount without "from" when any repository holds the blob
+	TagPageEmptyOnce      bool   // a paged tag listing contains one page without entries that still carries a next link
 	MountNoLocation       bool   // a granted mount answers 201 without a Location header (a fronting proxy that drops it)
 	ChunkMin              int    // OCI-Chunk-Min-Length announced on upload POST (0: none)
 	ChunkMinEnforce       bool   // a chunk that follows one below the minimum is refused with 400
@@ -776,6 +777,22 @@ func (g *Reg) tagList(req *simnet.Request, repo string, q url.Values) *simnet.Re
 	page := g.K.TagPage
 	if n > 0 && (page == 0 || n < page) {
 		page = n
+	}
+	if g.K.TagPageEmptyOnce && last != "" && q.Get("resume") == "" && len(tags) > 0 {
+		// a page without entries that still links to the next one (every tag of that key range was deleted
+		// between two scans of a registry that pages by key range): the listing goes on behind it
+		r := resp(200, "")
+		nq := url.Values{}
+		nq.Set("last", last)
+		nq.Set("resume", "1")
+		if n > 0 {
+			nq.Set("n", strconv.Itoa(n))
+		}
+		r.Header.Set("Link", fmt.Sprintf("</v2/%s/tags/list?%s>; rel=\"next\"", repo, nq.Encode()))
+		b, _ := json.Marshal(map[string]any{"name": repo, "tags": []string{}})
+		r.Header.Set("Content-Type", "application/json")
+		r.Body = b
+		return r
 	}
 	r := resp(200, "")
 	if page > 0 && len(tags) > page {
